@@ -77,6 +77,9 @@ Record pdef := { p_gens : list (list nat); p_names : list string; p_name : strin
 Definition zperm_ok (n : nat) (p : list Z) : bool :=
   forallb (fun v => 0 <=? v) p && nat_list_eqb (NatSort.sort (to_nats p)) (seq 0 n).
 
+(* generator names when none are given: ",".join(str(i) for i in g) *)
+Definition default_names (gens : list (list Z)) : list string := map (join ",") gens.
+
 Definition create (gens : list (list Z)) (names : option (list string)) (central : list Z) (name : string)
   : result pdef :=
   match gens with
@@ -84,7 +87,7 @@ Definition create (gens : list (list Z)) (names : option (list string)) (central
   | g0 :: _ =>
     let n := List.length g0 in
     if negb (forallb (zperm_ok n) gens) then Err AssertionErr else
-    let names' := match names with Some l => l | None => map (join ",") gens end in
+    let names' := match names with Some l => l | None => default_names gens end in
     (* __post_init__ *)
     if negb (List.length names' =? List.length gens)%nat then Err AssertionErr else
     let sz := List.length central in
